@@ -408,7 +408,9 @@ def run(ctx):
             continue
         # a value read from a CSV file as Int/Float keeps its kind; a whole-number float literal in a CSV cell is read as Int: same number either way
         ncli += (check_json if fmt == "json" else check_csv)(ctx, c, o, "cli -o " + fmt, {"source": src})
-    ctx.cover(evaluations=len(cases) * 2 + len(jobs), distinct=okj + okc + ncli, sample={"cols": cases[1]["cols"], "row": [shown(v) for v in cases[1]["rows"][0]], "json_view": cases[1]["json"][0]})
+    # evaluations = rows handed to a formatter (or printed by the binary) and decoded; distinct_nontrivial = those whose decoded output equalled the view
+    nattempt = sum(len(c["rows"]) * (2 if c["csvok"] else 1) for c in cases) + sum(len(m[0]["rows"]) for m in meta)
+    ctx.cover(evaluations=nattempt, distinct=okj + okc + ncli, sample={"cols": cases[1]["cols"], "row": [shown(v) for v in cases[1]["rows"][0]], "json_view": cases[1]["json"][0]})
     ctx.notes.update({"rows_generated": len(single), "batches_generated": len(batches), "json_rows_decoded_equal": okj, "csv_rows_decoded_equal": okc, "cli_runs": len(jobs), "cli_rows_decoded_equal": ncli,
                       "classes": {k: sum(1 for c in cases if c["class"] == k) for k in ("plain", "nonfinite", "badstr")}})
     ctx.coverage["exhaustive"] = False
